@@ -207,6 +207,10 @@ KOk(x, p, k) ==
   /\ BigApprox(Scale(k.sum.wina, 4), WinA(x, p), BigOf(20000), 20)
   /\ BigApprox(Scale(k.sum.winau, 8), WinAU(x, p), Scale(2, 8), 20)
   /\ k.sum.auneg \/ BigApprox(BigAdd(Scale(k.sum.au, 8), KAUNeg(x)), KAUPos(x, p), Scale(6, 8), 20)
+  \* total length of the bridges counted, and their total psi L
+  /\ BigApprox(Scale(k.sum.tbl, 2), BigSumSeq(x.tbs, LAMBDA t : IF t.lsign >= 0 THEN BigOf(t.l) ELSE BigZero), BigOf(2000), 20)
+  /\ IF k.sum.tbpsilneg THEN BigApprox(BigAdd(Scale(k.sum.tbpsil, 6), TbPos(x)), TbNeg(x), Scale(2, 7), 20)
+     ELSE BigApprox(BigAdd(Scale(k.sum.tbpsil, 6), TbNeg(x)), TbPos(x), Scale(2, 7), 20)
 
 (*********************************** n50 (C09) *****************************)
 N50Walls(x) == { i \in DOMAIN x.walls : Tenv(x, x.walls[i]) /\ x.walls[i].bounds = "EXTERIOR" }
@@ -230,6 +234,11 @@ N50Ok(x, p, g, n) ==
   /\ n.wcref = CoRef(x)
   \* the reported mean permeability of the windows is sum(Ch Ah) / Ah
   /\ n.ha > 0 => BigApprox(BigMul(BigOf(n.hc), BigOf(n.ha)), Scale(n.hca, 2), BigAdd(BigOf(n.ha), BigOf(n.hc + 200)), 20)
+  \* the reported products: opaque permeability times opaque area, with the reference and with the reported permeability
+  /\ ("wca" \in DOMAIN n) =>
+        /\ BigApprox(Scale(n.wcaref, 2), BigMul(BigOf(n.wa), BigOf(n.wcref)), BigAdd(BigOf(n.wa), BigOf(n.wcref + 200)), 20)
+        /\ BigApprox(Scale(n.wca, 2), BigMul(BigOf(n.wa), BigOf(n.wc)), BigAdd(BigOf(n.wa), BigOf(n.wc + 200)), 20)
+        /\ (n.wca > 1 /\ n.wc > 1) => (n.wcaneg = n.wcneg)
   /\ IF n.vol <= 0 THEN n.n50ref = 0                                  \* V <= 0.001 m3
      ELSE BigApprox(BigMul(BigOf(n.n50ref), V), Leak(x, p, CoRef(x)), tol(V), 30)
   /\ IF x.meta.n50t = None
